@@ -64,9 +64,27 @@ Definition ofexpr_eqb (a b : option fexpr) : bool :=
 Fixpoint olist_eqb (l l' : list (option fexpr)) : bool :=
   match l, l' with [], [] => true | x :: r, y :: r' => ofexpr_eqb x y && olist_eqb r r' | _, _ => false end.
 Definition is_none {A} (o : option A) : bool := match o with None => true | Some _ => false end.
+(* the hypotheses of C18_helpers_rejected_or_inlined, evaluated on the annotations go/types produced for the file: for every
+   rule, the table in scope is [env_ok], the filter is [nc] (names: the helper and parameter names of the group) and the
+   inlined filter is [consistent] *)
+Definition group_names (ss : list gstmt) : list string :=
+  flat_map (fun s => match s with GDef m => m_name m :: m_params m | GRule _ => [] end) ss.
+Fixpoint hyp_stmts (mname : string) (names : list string) (st : env) (ss : list gstmt) : bool :=
+  match ss with
+  | [] => true
+  | GDef m :: ss' => hyp_stmts mname names (st ++ [m])%list ss'
+  | GRule w :: ss' =>
+      env_okb names st && ncb names w &&
+      match gen_inline mname st FUEL w with Some e' => consistentb path_ok e' | None => true end &&
+      hyp_stmts mname names st ss'
+  end.
+Definition file_hyps (gs : list group) : bool :=
+  forallb (fun g => hyp_stmts (g_matcher g) (group_names (g_stmts g)) [] (g_stmts g)) gs.
+
 (* 0: some rule of the file is rejected; 1: every rule converts to the conversion of its inlined form;
-   2: converts to something else; 3: converts although the inlined form is rejected *)
+   2: converts to something else; 3: converts although the inlined form is rejected; 4: a hypothesis does not hold *)
 Definition file_verdict (gs : list group) : nat :=
+  if negb (file_hyps gs) then 4 else
   let impl := List.concat (gen_conv_groups FUEL gen_reset_per_group [] gs) in
   let spec := List.concat (map (fun g => spec_stmts (g_matcher g) [] (g_stmts g)) gs) in
   if existsb is_none impl then 0 else if olist_eqb impl spec then 1 else if existsb is_none spec then 3 else 2.
